@@ -274,6 +274,12 @@ func (env *c16HSEnv) run(c c16HSCase) (res c16HSResult) {
 			fmt.Sscanf(X.ephAct, "loworder%d", &idx)
 			k, _ := hex.DecodeString(c16LowOrderHex[idx])
 			msgs = [][]byte{c16EphMsg(k)}
+			if X.authAct != "-" {
+				// what anybody could compute if the endpoint went on with the all-zero shared secret
+				var lk [32]byte
+				copy(lk[:], k)
+				X.sess = c16DeriveZero(&lk, &X.realEph)
+			}
 		default:
 			panic("unknown eph action " + X.ephAct)
 		}
@@ -365,7 +371,9 @@ func (env *c16HSEnv) run(c c16HSCase) (res c16HSResult) {
 			wire = prevFrame
 		case X.authAct == "forge-self":
 			wire = sealSelf(c16KeyM.PubKey(), mSig(X.sess.challenge[:]))
-			allowed[X] = allow{true, c16KeyM.PubKey(), "attacker-as-itself"}
+			if !strings.HasPrefix(X.ephAct, "loworder") { // after a small-order key nothing may be established: the session keys are public
+				allowed[X] = allow{true, c16KeyM.PubKey(), "attacker-as-itself"}
+			}
 		case X.authAct == "forge-self-2frames":
 			pl := c16AuthPayload(c16KeyM.PubKey(), mSig(X.sess.challenge[:]))
 			wire = append(c16SealFrame(X.sess.sendAead, 0, pl[:10]), c16SealFrame(X.sess.sendAead, 1, pl[10:])...)
@@ -463,6 +471,9 @@ func (env *c16HSEnv) run(c c16HSCase) (res c16HSResult) {
 			if X.authAct == "forge-reflect-sig" {
 				k = "p2p/conn/secret_connection.go:MakeSecretConnection:own-auth-signature-reflected-by-remote-is-accepted"
 			}
+			if strings.HasPrefix(X.ephAct, "loworder") {
+				k = "p2p/conn/secret_connection.go:computeDHSecret:connection-established-after-a-small-order-ephemeral-key:auth=" + X.authAct
+			}
 			if res.key == "" || X.authAct == "forge-reflect-sig" {
 				res.key = k
 				res.what = fmt.Sprintf("endpoint %s reports an established connection with remote identity %X, but the party that sent the accepted "+
@@ -510,6 +521,13 @@ func c16EphClass(a string) string {
 func c16HSOptions() (opts [][2]string) {
 	for _, e := range c16EphDying() {
 		opts = append(opts, [2]string{e, "-"})
+	}
+	// a few small-order keys (one, an order-8 point, p-1, an order-8 point with bit 255 set) are also followed by the auth
+	// messages anybody can build if the endpoint carried on with the all-zero shared secret
+	for _, i := range []int{1, 2, 4, 7} {
+		for _, a := range []string{"forge-self", "forge-reflect-sig"} {
+			opts = append(opts, [2]string{fmt.Sprintf("loworder%d", i), a})
+		}
 	}
 	gen := c16AuthGeneric()
 	for _, e := range c16EphBlind {
